@@ -226,6 +226,8 @@ typedef struct {
   pid_t     tid;
   int       busy;     // a command was sent and no reply collected yet
   char      pending;  // the operation it is busy with
+  FILE* volatile fh;       // kind 't': the handle this worker opened (a worker of kind 'T' that follows it shares it)
+  volatile int   fh_ready;
 } Worker;
 
 static __thread int my_idx = -1;
@@ -265,8 +267,21 @@ static void occ_enter(void)
 static void worker_loop(Worker* w)
 {
   my_idx        = w->idx;
-  FILE* f       = fopen(OBJ_PATH, use_dir ? "r" : open_mode(w->mode));
-  int   holding = 0;
+  // kind 'T': a second thread of this process that uses the SAME handle as the worker before it (never its own):
+  // what the library does to the FILE object itself (flockfile, buffers) is shared between the two
+  const int shares = w->kind == 'T' && w->idx > 0;
+  FILE*     f      = NULL;
+  if (shares) {
+    while (!w[-1].fh_ready) {
+      usleep_real(100);
+    }
+    f = w[-1].fh;
+  } else {
+    f           = fopen(OBJ_PATH, use_dir ? "r" : open_mode(w->mode));
+    w->fh       = f;
+    w->fh_ready = 1;
+  }
+  int holding = 0;
   {
     // ready: the handle is open (the scheduler issues no step - an unlink of the lock file, say - before every
     // worker, process or thread, has said so)
@@ -341,7 +356,7 @@ static void worker_loop(Worker* w)
     while (write(w->reply[1], out, 3) < 0 && errno == EINTR) {
     }
   }
-  if (f) {
+  if (f && !shares) {
     fclose(f);
   }
 }
